@@ -150,6 +150,41 @@ def run_lasso(res, q, T):
         res.nontrivial += 1
 
 
+def run_lasso_js(res, qs, tabs):
+    """the same termination exploration for rbql-js (its TopWriter is a twin of the Python one)"""
+    from vf import js
+    if not js.available():
+        return
+    batch, meta = [], []
+    for q in qs:
+        n = q['top'][1]
+        for T in tabs:
+            unroll = [T[i % len(T)] for i in range(len(T) * (n + 1))]
+            exp = refql.evaluate_neutral(q, unroll)
+            if exp is None or exp.error is not None or len(exp.records) < n:
+                continue
+            H = len(T) * (n + 2) + 2
+            batch.append({'op': 'lasso', 'query': refql.render(q, 'js'), 'table': T, 'horizon': H})
+            meta.append((q, T, exp, H))
+    outs = js.run_batch(batch)
+    for (q, T, exp, H), c, out in zip(meta, batch, outs):
+        res.evaluations += 1
+        res.traces += 1
+        res.feat('lasso_executions_js')
+        case = {'kind': 'lasso-js', 'query': c['query'], 'T': T, 'horizon': H}
+        if out.get('horizon'):
+            res.violation('js:bounded-query-does-not-stop', case, {'records': exp.records, 'pulls': exp.pulled}, out, 'query kept pulling past the horizon')
+        elif 'error' in out:
+            res.violation('js:lasso-exception', case, {'records': exp.records}, out)
+        elif not refql.same_records(exp.records, out['records']):
+            res.violation('js:lasso-records', case, exp.records, out['records'])
+        elif out['pulls'] != exp.pulled:
+            res.violation('js:bounded-query-pulls-past-bound', case, {'pulls': exp.pulled}, {'pulls': out['pulls'], 'pulls_at_write': out.get('pulls_at_write')})
+        else:
+            res.nontrivial += 1
+        res.transitions += out.get('pulls', 0)
+
+
 def run_shard(sh):
     res = core.Result()
     if sh['part'] == 'A':
@@ -208,6 +243,7 @@ def run_shard(sh):
             for T in tabs:
                 run_lasso(res, q, T)
                 res.states += 1
+        run_lasso_js(res, sp_['qs'][sh['lo']:sh['hi']], tabs)
         if sp_['qs'][sh['lo']:sh['hi']]:
             res.sample({'lasso_query': refql.render(sp_['qs'][sh['lo']]), 'tables': len(tabs)})
     return res
